@@ -162,15 +162,76 @@ def c01_replay(path):
     return 1 if bad else 0
 
 
+# ------------------------------------------------------------------------------------------- C02
+
+LIN_TYPES = ["queue", "lqueue", "stack", "lstack", "heap", "bst", "trie", "cache"]
+
+
+def c02_engine(prop, cfg, tier, seed, only=None):
+    """Exhaustive interleavings at critical-section granularity: the container packages of REPO are copied to a
+    scratch tree with their `sync` import redirected to the cooperative-scheduler shim; every schedule of every small
+    program is executed and each history is checked for linearizability by the Lean driver (sequential monitors as
+    oracle)."""
+    from concurrent.futures import ThreadPoolExecutor
+    from pipeline import RunResult, pipe_run, collect, merge
+    res = dict(violations=[], notes=[], evaluations=0, distinct_nontrivial=0, samples=[], detail={})
+    scratch = tempfile.mkdtemp(prefix="vsync_", dir="/tmp")
+    try:
+        rc, out = sh([os.path.join(VERIF, "bin", "mkvsync"), REPO, scratch], env=GOENV, timeout=900)
+        if rc != 0:
+            res["violations"].append((write_replay(prop, "unproved", "# C02: the sync-shimmed copy of the container packages does not build\n# " +
+                                                   out[-2500:].replace("\n", "\n# ") + "\n"), " no-failing-input-found"))
+            return res
+        prog = os.path.join(scratch, "vsyncprog")
+        rr = RunResult()
+        stats = {}
+        def one(t):
+            lines, prc, err = pipe_run("vsync/" + t, [prog, "-only", t, "-tier", tier], timeout=3400)
+            return t, lines, prc, err
+        with ThreadPoolExecutor(max_workers=NCPU) as ex:
+            for t, lines, prc, err in ex.map(one, [only] if only else LIN_TYPES):
+                m = re.search(r"VSYNC programs=(\d+) executions=(\d+) histories=(\d+)", err)
+                if m:
+                    stats[t] = dict(programs=int(m.group(1)), executions=int(m.group(2)), histories=int(m.group(3)))
+                collect(rr, "vsync/" + t, lines, prc, "" if m else err, "vsync/" + t)
+        res["runresult"] = rr
+        res["detail"]["vsync"] = stats
+        res["detail"]["interleavings_executed"] = sum(v["executions"] for v in stats.values())
+    finally:
+        shutil.rmtree(scratch, ignore_errors=True)
+    return res
+
+
+def c02_replay(path):
+    txt = open(path).read()
+    m = re.search(r"^CASE lin (\S+)", txt, re.M)
+    only = m.group(1) if m else None
+    r = c02_engine("C02", {}, "quick", 1, only=only)
+    rr = r.get("runresult")
+    bad = bool(r["violations"]) or (rr is not None and bool(rr.spec))
+    if rr is not None:
+        for s in rr.spec[:5]:
+            print(s["text"])
+            for l in rr.traces.get((s["shard"], s["case"]), []):
+                print("   ", l)
+    if bad:
+        print(f"VIOLATION property=C02 replay={path}")
+    return 1 if bad else 0
+
+
 # --------------------------------------------------------------------------------------- dispatch
 
 def run_engines(prop, cfg, tier, seed):
     if prop == "C01":
         return c01_engine(prop, cfg, tier, seed)
+    if prop == "C02":
+        return c02_engine(prop, cfg, tier, seed)
     return None
 
 
 def replay(prop, cfg, path):
     if prop == "C01":
         return c01_replay(path)
+    if prop == "C02":
+        return c02_replay(path)
     return 0
